@@ -56,6 +56,14 @@ CONFIGS = {
     # the library as a shared object (production flags) + a public-API driver that watches its writable segment
     "so": dict(_cfg("gcc", ["-O2", "-g"], STD + ["-DUSE_ASM_X86_64=1"], [], ["-lpthread"], src="sodriver.c", wrap=False), so=True),
     "so_tsan": dict(_cfg("gcc", ["-O1", "-g"], STD + ["-DUSE_ASM_X86_64=1"], ["-fsanitize=thread"], ["-lpthread"], src="sodriver.c", wrap=False), so=True),
+    # constant-time monitor: the library as its own translation units with the shipped flags + -DVALGRIND, public-API driver, run under memcheck
+    "ct_default": dict(_cfg("gcc", ["-O2", "-g", "-std=c90", "-fPIC"], STD + ["-DUSE_ASM_X86_64=1", "-DVALGRIND"], [], [], src="ctdriver.c", wrap=False), ct=True),
+    "ct_int64": dict(_cfg("gcc", ["-O2", "-g", "-std=c90", "-fPIC"], STD + ["-DUSE_FORCE_WIDEMUL_INT64=1", "-DVALGRIND"], [], [], src="ctdriver.c", wrap=False), ct=True),
+    "ct_i128s": dict(_cfg("gcc", ["-O2", "-g", "-std=c90", "-fPIC"], STD + ["-DUSE_FORCE_WIDEMUL_INT128_STRUCT=1", "-DVALGRIND"], [], [], src="ctdriver.c", wrap=False), ct=True),
+    "ct_o3": dict(_cfg("gcc", ["-O3", "-g", "-std=c90", "-fPIC"], STD + ["-DUSE_ASM_X86_64=1", "-DVALGRIND"], [], [], src="ctdriver.c", wrap=False), ct=True),
+    "ct_os": dict(_cfg("gcc", ["-Os", "-g", "-std=c90", "-fPIC"], STD + ["-DUSE_ASM_X86_64=1", "-DVALGRIND"], [], [], src="ctdriver.c", wrap=False), ct=True),
+    "ct_noasm": dict(_cfg("gcc", ["-O2", "-g", "-std=c90", "-fPIC"], STD + ["-DVALGRIND"], [], [], src="ctdriver.c", wrap=False), ct=True),
+    "ct_clang": dict(_cfg("clang", ["-O2", "-gdwarf-4", "-std=c90", "-fPIC"], STD + ["-DUSE_ASM_X86_64=1", "-DVALGRIND"], [], [], src="ctdriver.c", wrap=False), ct=True),
 }
 
 def tree_files(repo=None):
@@ -145,6 +153,16 @@ def build(name, repo=None, cfg=None, quiet=True):
         tmp = out + ".tmp%d" % os.getpid()
         cmd = command_line(name, cfg, tmp, repo)
         t0 = time.time()
+        if cfg.get("ct"):
+            objs = []
+            for i, src in enumerate(("secp256k1.c", "precomputed_ecmult.c", "precomputed_ecmult_gen.c")):
+                o = os.path.join(d, "lib%d.o" % i)
+                c1 = [cfg["cc"]] + cfg["opt"] + cfg["defs"] + MODDEFS + WARN + ["-I" + os.path.join(repo, "src"), "-I" + os.path.join(repo, "include"), "-c", os.path.join(repo, "src", src), "-o", o]
+                r = subprocess.run(c1, capture_output=True, text=True)
+                if r.returncode != 0:
+                    raise BuildError("build of %s (library object) failed:\n%s\n%s" % (name, " ".join(c1), r.stderr[-4000:]))
+                objs.append(o)
+            cmd = [cfg["cc"], "-O1", "-g" if cfg["cc"] == "gcc" else "-gdwarf-4"] + WARN + ["-I" + os.path.join(repo, "include"), os.path.join(VERIF, "shim", cfg["src"])] + objs + ["-o", tmp]
         if cfg.get("so"):
             # step 1: libsecp256k1.so from the library's own translation units; step 2: the driver against the public headers only
             lib = os.path.join(d, "libsecp256k1.so")
